@@ -237,8 +237,17 @@ func (z *Zipper) propagate() {
 const MaxCandidates = 100
 
 func (z *Zipper) matchUsers(usersOld, usersNew []ssa.Instruction) {
+	// Referrers() lists an instruction once per operand slot that uses the value: a call that
+	// passes one value m times would fill the bucket with m copies of itself and be compared
+	// against all of them m times over (100*m comparisons for ONE pair of instructions).
+	seenNew := make(map[ssa.Instruction]bool, len(usersNew))
+	triedOld := make(map[ssa.Instruction]bool, len(usersOld))
 	newByOp := make(map[string][]ssa.Instruction)
 	for _, u := range usersNew {
+		if seenNew[u] {
+			continue
+		}
+		seenNew[u] = true
 		if _, mapped := z.revInstrMap[u]; mapped {
 			continue
 		}
@@ -251,6 +260,10 @@ func (z *Zipper) matchUsers(usersOld, usersNew []ssa.Instruction) {
 	z.sortInstrs(usersOld)
 
 	for _, uOld := range usersOld {
+		if triedOld[uOld] {
+			continue
+		}
+		triedOld[uOld] = true
 		if _, mapped := z.instrMap[uOld]; mapped {
 			continue
 		}
